@@ -177,7 +177,6 @@ func c15Subst(f template.Fields, confSvc template.ConfigurationService, parentPa
 // outer element o in 1..N yields a group g<o> holding the calls w<o>-1 .. w<o>-<o>; every generated role has both
 // iteration variables bound to its own values; the same tree for every setting of the concurrency switches.
 //verif:entry HarnessNestedIterator unwind=64 conform=12 preempt=0 reach=loaded stub=github.com/AliceO2Group/Control/common/utils.TimeTrack,github.com/jinzhu/copier.Copy
-//verif:thorough HarnessNestedIterator preempt=1
 func HarnessNestedIterator() {
 	template.VerifHook_Fields_Execute = c15Subst
 	the.VerifHook_ConfSvc = func() configuration.Service { return nil }
@@ -207,6 +206,7 @@ func HarnessNestedIterator() {
 				o, it = cv["o"], cv["it"]
 			}
 			vrt.Assert("w"+o+"-"+it == c.GetName(), "iteration-variables-are-bound-in-each-generated-role")
+			vrt.Assert(c.GetParentRole() == Role(g) && c.GetPath() == "root."+g.GetName()+"."+c.GetName(), "generated-role-hangs-under-its-own-generated-parent")
 		}
 	}
 	for o := 1; o <= n; o++ {
